@@ -181,7 +181,11 @@ def run(ctx):
         own2.append((k, "rows"))
         calls2.append(("simus_scores", (n, e["stages_results"])))
         own2.append((k, "scores"))
-        sc = e["method_1_score"] if e["rank_by"] == 1 else e["method_2_score"]
+        if int(e["rank_by"]) != int(c["method"]["rank_by"]):
+            ctx.oracle_fail(c, {"oracle": f"the method was configured with rank_by={c['method']['rank_by']} but the result "
+                                          f"was ranked by method {e['rank_by']}"})
+            continue
+        sc = e["method_1_score"] if c["method"]["rank_by"] == 1 else e["method_2_score"]
         calls2.append(("rank", (True, sc)))
         own2.append((k, "rank"))
     for (k, kind), mo in zip(own2, ctx.model.batch(calls2)):
